@@ -340,6 +340,63 @@ def run(ctx):
                          "args": [enc(a) for a in args], "kwargs": [[k, enc(v)] for (k, v) in kwargs.items()]})
             expect.append(("get_arg_ctx", gname, r_direct))
             res.evaluations += 1
+    # a call seen in source whose callee collects the remaining positional arguments (*rest): the analysis accepts it, so two
+    # calls that bind different tuples to `rest` must not share a signature (correspondence on the per-parameter hashes too)
+    for args in [(1,), (1, 2), (1, 2, 3), (1, 2, 4), (1, 3, 2), (1, 2, 3, 0), (1, "2", 3)]:
+        nodes = [ast.parse(repr(a), mode="eval").body for a in args]
+        r_ast = impl_ctx(lambda: get_arg_ctx_ast(ns["g1"], nodes, OrderedDict()))
+        reqs.append({"op": "argctx", "route": "ast", "params": params_json(ns["g1"]), "max": maxlen,
+                     "args": [enc(a) for a in args], "kwargs": []})
+        expect.append(("get_arg_ctx_ast", "g1" + repr(args), r_ast))
+        res.evaluations += 1
+    import os
+    import shutil
+    import sys
+    import tempfile
+    base = tempfile.mkdtemp(prefix="ddsverif_c13v_")
+    pkg = "c13v_%d" % os.getpid()
+    try:
+        os.makedirs(os.path.join(base, pkg))
+        open(os.path.join(base, pkg, "__init__.py"), "w").close()
+        calls = ["1", "1, 2", "1, 2, 3", "1, 2, 4", "1, 3, 2", "1, 2, 3, 0"]
+        src = "import dds\n\ndef g(a, *rest):\n    return repr((a, rest))\n\n" + "".join(
+            "def top_%d():\n    return dds.keep('/v%d', g, %s)\n\n" % (i, i, c) for i, c in enumerate(calls))
+        with open(os.path.join(base, pkg, "va.py"), "w") as fh:
+            fh.write(src)
+        sys.path.insert(0, base)
+        dds.accept_module(pkg)
+        import importlib
+        modv = importlib.import_module(pkg + ".va")
+        seen_v = {}
+        for i, c in enumerate(calls):
+            store.synced.clear()
+            want = repr(eval("(lambda a, *rest: (a, rest))(%s)" % c))
+            try:
+                got = dds.eval(getattr(modv, "top_%d" % i))
+                sig = store.synced[-1]["/v%d" % i]
+            except BaseException as e:
+                # refused: outside the supported subset, nothing to check
+                res.count("var_positional_refused(%s)" % type(e).__name__)
+                ws.reset_dds_state()
+                continue
+            res.evaluations += 1
+            res.count("var_positional_calls")
+            res.nontrivial("varpos " + c)
+            if got != want:
+                res.violations.append({"what": "a call g(%s) of def g(a, *rest) kept inside an evaluated function returns %r, plain execution %r" % (c, got, want),
+                                       "input": {"function": src, "call": c}, "kf": None})
+            prev = seen_v.get(sig)
+            if prev is not None and prev != c:
+                res.violations.append({"what": "two different bindings share one signature", "input": {"function": src, "argument_1": prev,
+                                                                                                       "argument_2": c, "signature": sig}, "kf": None})
+            seen_v.setdefault(sig, c)
+    finally:
+        if base in sys.path:
+            sys.path.remove(base)
+        for k in list(sys.modules):
+            if k.split(".")[0] == pkg:
+                del sys.modules[k]
+        shutil.rmtree(base, ignore_errors=True)
     # model vs implementation
     if ctx["driver_ok"]:
         answers = common.drv_batch(reqs)
